@@ -123,7 +123,7 @@ pub fn cases(tier: Tier) -> Vec<Case> {
         }
     }
     // integrity / JSON / entity axes on node kinds, with an author that would otherwise be accepted and one that would not
-    for k in [Kind::NewP, Kind::NewerOwnVersion, Kind::NewerForeignVersion] {
+    for k in [Kind::NewP, Kind::NewQ, Kind::NewerOwnVersion, Kind::NewerForeignVersion, Kind::MoveIntoRoom, Kind::MoveOutOfRoom] {
         for var in VARIANTS.iter().skip(1) {
             for r in if tier == Tier::Thorough { vec![0, 1, 2, 3, 4] } else { vec![2, 3] } {
                 for d in if tier == Tier::Thorough { DATES.to_vec() } else { vec![DateK::Valid] } {
@@ -133,9 +133,16 @@ pub fn cases(tier: Tier) -> Vec<Case> {
         }
     }
     // batches: an honest row in the same (entity, day) as the forged one
-    for k in [Kind::NewP, Kind::NewerForeignVersion, Kind::TombstoneForeign] {
-        for var in [Variant::Plain, Variant::TamperedJson, Variant::ShortSignature, Variant::WrongFieldType, Variant::UnknownEntity] {
-            for r in [1usize, 3] {
+    let batch_kinds: Vec<Kind> = if tier == Tier::Thorough { KINDS.to_vec() } else { vec![Kind::NewP, Kind::NewerForeignVersion, Kind::TombstoneForeign] };
+    let batch_vars: Vec<Variant> = if tier == Tier::Thorough { VARIANTS.to_vec() } else { vec![Variant::Plain, Variant::TamperedJson, Variant::ShortSignature, Variant::WrongFieldType, Variant::UnknownEntity] };
+    for k in batch_kinds {
+        let node_kind = matches!(k, Kind::NewP | Kind::NewQ | Kind::NewerOwnVersion | Kind::NewerForeignVersion | Kind::MoveIntoRoom | Kind::MoveOutOfRoom);
+        for var in batch_vars.iter().copied() {
+            // the integrity / JSON / entity variants only exist for rows
+            if !node_kind && var != Variant::Plain {
+                continue;
+            }
+            for r in if tier == Tier::Thorough { vec![0usize, 1, 2, 3, 4] } else { vec![1usize, 3] } {
                 v.push(Case { kind: k, role: r, date: DateK::Valid, variant: var, with_honest: true });
             }
         }
@@ -614,8 +621,14 @@ pub async fn run_case(w: &World, c: &Case, out: &mut Outcome, verbose: bool) -> 
         let got = r[0][0].int().unwrap_or(0) > 0;
         out.count(if got { "honest-neighbour-stored" } else { "honest-neighbour-lost" });
         if !got {
+            let key = if st.error.is_some() {
+                // one defect whatever the forged neighbour is: a row that fails verification aborts the whole pull
+                "clause=honest-row-blocked-by-forged-neighbour reason=verification-failure-aborts-the-pull".to_string()
+            } else {
+                format!("kind={:?} variant={:?} clause=honest-row-blocked-by-forged-neighbour", c.kind, c.variant)
+            };
             out.violation(
-                format!("kind={:?} variant={:?} clause=honest-row-blocked-by-forged-neighbour", c.kind, c.variant),
+                key,
                 format!("an honest row in the same batch as a forged {:?}/{:?} was not stored (pull result: {:?})", c.kind, c.variant, st.error),
                 replay.clone(),
             );
